@@ -9,6 +9,7 @@ The domain is finite (<= 8 assignments per function); nothing is solved.
 
 from __future__ import annotations
 
+import ast
 import itertools
 from dataclasses import dataclass, field
 
@@ -27,7 +28,14 @@ STDLIB_RAISERS = {
     "urllib.parse.urlparse": ("ValueError", "raises ValueError('Invalid IPv6 URL') for an unbalanced '[' / ']' in the authority"),
     "re.compile": ("error", "re.compile raises re.error for an invalid pattern"),
     "ipaddress.ip_address": ("ValueError", "not an address"),
+    "unicodedata.name": ("ValueError", "unicodedata.name(c) without a default raises ValueError('no such name') for characters that have none (control characters, unassigned code points)"),
+    "unicodedata.lookup": ("KeyError", "no character of that name"),
+    "unicodedata.digit": ("ValueError", "not a digit (no default given)"),
+    "unicodedata.decimal": ("ValueError", "not a decimal (no default given)"),
+    "unicodedata.numeric": ("ValueError", "not numeric (no default given)"),
 }
+# ... unless the optional default argument is given
+_DEFAULT_SILENCES = {"unicodedata.name": 2, "unicodedata.digit": 2, "unicodedata.decimal": 2, "unicodedata.numeric": 2}
 
 
 @dataclass(frozen=True)
@@ -316,6 +324,19 @@ class Mode:
     def _effects(self, fn, s: Summary, line: int, cov: tuple, A, stack, res: ModeResult, guards: tuple = ()) -> None:
         for t in s.syn.get(line, ()):
             for c in subterms(t):
+                # s[-1] / s[0] of a str PARAMETER: IndexError for the empty string (a legitimate prefix, identifier,
+                # CURIE ..) unless the path has looked at the string's emptiness / length / ends before
+                if op(c) == "item" and op(c[1]) == "param" and op(c[2]) == "const" and isinstance(c[2][1], int) and not isinstance(c[2][1], bool):
+                    prm = fn.param(c[1][1])
+                    ann = ast.unparse(prm.annotation).replace(" ", "") if prm is not None and prm.annotation is not None else ""
+                    if ann == "str" and not self._caught("IndexError", cov):
+                        looked = False
+                        for g in guards:
+                            ga = getattr(g, "a", None)
+                            if isinstance(ga, tuple) and any(x == c[1] for x in subterms(ga)) and not any(x == c for x in subterms(ga)):
+                                looked = True
+                        if not looked:
+                            res.raises.add(Esc("IndexError", fn.qualname, line, ("index-of-empty", f"{c[1][1]}[{c[2][1]}] raises IndexError for the empty string")))
                 if op(c) == "call":
                     f = c[1]
                     if op(f) == "attr" and f[2] in TRIE_RAISERS and op(f[1]) == "attr" and f[1][2] == "trie" and len(c[2]) == 1 and not c[3]:
@@ -328,7 +349,7 @@ class Mode:
                             res.raises.add(Esc("TypeError", fn.qualname, line, ("empty-iterable", show(c)[:50])))
                         continue
                     # library semantics: stdlib functions that raise on inputs of the documented type (a str)
-                    if op(f) == "ext" and f[1] in STDLIB_RAISERS:
+                    if op(f) == "ext" and f[1] in STDLIB_RAISERS and not (f[1] in _DEFAULT_SILENCES and len(c[2]) >= _DEFAULT_SILENCES[f[1]]):
                         exc, why = STDLIB_RAISERS[f[1]]
                         if not self._caught(exc, cov):
                             res.raises.add(Esc(exc, fn.qualname, line, (f[1], why)))
